@@ -79,14 +79,15 @@ def applyEvs (fs : FS P) (evs : List (Ev P)) : FS P := evs.foldl applyEv fs
 def saveOps (tgt tmp : P) (chunks : List Bytes) : List (FsOp P) :=
   .openTrunc tmp :: (chunks.map (.write tmp) ++ [.close tmp, .rename tmp tgt, .remove tmp])
 
-/-- a single injected error: operation number `idx` (0 = the `open`) of the save raises `OSError`; if it
-is a write, `part` is what it wrote before failing, and `after` are the writes the file object still issues
-when it is closed on the way out (Python's buffered writer keeps what it could not write and tries once more
-in `close()`; what exactly it writes then is its business: any list of chunks) -/
+/-- an injected error: operation number `idx` (0 = the `open`) of the save raises `OSError`.  If it is a write, `part`
+is what it wrote before failing, and `after` are the writes the file object still issues when it is closed on the way
+out - Python's buffered writer keeps what it could not write and tries again in `close()`; what exactly it writes
+then is its business (any list of chunks), and each of these writes may fail in turn (`true`: a full disk does not
+go away): the pair is (what reached the file, it raised). -/
 structure Fault where
   idx : Nat
   part : Bytes
-  after : List Bytes
+  after : List (Bytes × Bool)
   deriving DecidableEq, Repr
 
 def okEv (o : FsOp P) : Ev P := ⟨o, false⟩
@@ -115,13 +116,13 @@ def tailRun (tgt tmp : P) : Option Nat → Run P
 
 /-- the events of a write that failed and what follows it: the `with` block is left (the file object may write
 again what it still holds, then closes), then the `finally` (remove) -/
-def failedWrite (tmp : P) (part : Bytes) (after : List Bytes) : List (Ev P) :=
-  badEv (.write tmp part) :: (after.map (fun c => okEv (.write tmp c)) ++ [okEv (.close tmp), okEv (.remove tmp)])
+def failedWrite (tmp : P) (part : Bytes) (after : List (Bytes × Bool)) : List (Ev P) :=
+  badEv (.write tmp part) :: (after.map (fun c => ⟨.write tmp c.1, c.2⟩) ++ [okEv (.close tmp), okEv (.remove tmp)])
 
 /-- the writes by which the text of `json.dump` and the final newline reach the file descriptor (inside the `with`
 block or when `__exit__` flushes: both come before the `close` of the descriptor); a failing write leaves the
 `with` block -/
-def writesRun (tgt tmp : P) (part : Bytes) (after : List Bytes) : List Bytes → Option Nat → Run P
+def writesRun (tgt tmp : P) (part : Bytes) (after : List (Bytes × Bool)) : List Bytes → Option Nat → Run P
   | [], k => tailRun tgt tmp k
   | c :: cs, k =>
     match k with
